@@ -318,7 +318,7 @@ def _coq_eval_shard(args):
     name = "Cases%d" % idx
     path = os.path.join(workdir, name + ".v")
     with open(path, "w") as f:
-        f.write(header + "\n")
+        f.write("From Coq Require Import NArith.\n" + header + "\n")
         for k, e in exprs:
             f.write('Eval vm_compute in (%d%%N, %s).\n' % (k, e))
     rc, out, err = sh(["coqc", "-q", "-noglob", "-Q", COQ, "PV", path], timeout=1200, cwd=workdir)
